@@ -243,7 +243,16 @@ func init() {
 			return BoolV{in.p.hasPrefix(nfOf(a[0]), pre.litValue())}
 		},
 		"strings.HasSuffix": func(in *Interp, fn *ssa.Function, a []Value) Value {
-			return BoolV{in.p.hasSuffix(nfOf(a[0]), in.litArg(a[1], "HasSuffix suffix"))}
+			suf := in.p.res(nfOf(a[1]))
+			if !suf.isLit() {
+				s := in.p.res(nfOf(a[0]))
+				if in.p.branch("hassuffix-len", bLin(in.p.lenOf(suf).sub(in.p.lenOf(s)), LE0)) {
+					_, r := in.p.locate(s, in.p.lenOf(s).sub(in.p.lenOf(suf)))
+					return BoolV{in.p.strEq(r, suf)}
+				}
+				return mkBool(false)
+			}
+			return BoolV{in.p.hasSuffix(nfOf(a[0]), suf.litValue())}
 		},
 		"strings.EqualFold": func(in *Interp, fn *ssa.Function, a []Value) Value {
 			x, y := in.p.res(nfOf(a[0])), in.p.res(nfOf(a[1]))
@@ -743,8 +752,25 @@ func init() {
 			return mkBool(false)
 		},
 		// ---------------------------------------------------------------- misc
-		"os.Getenv": func(in *Interp, fn *ssa.Function, a []Value) Value { return mkStr("") },
+		// the environment is empty unless the harness set a variable with rt.Setenv
+		"os.Getenv": func(in *Interp, fn *ssa.Function, a []Value) Value {
+			k := in.p.res(nfOf(a[0]))
+			if !k.isLit() {
+				in.unsupported("os.Getenv with a symbolic name")
+			}
+			if v, ok := in.p.env[k.litValue()]; ok {
+				return StrV{v}
+			}
+			return mkStr("")
+		},
 		"os.LookupEnv": func(in *Interp, fn *ssa.Function, a []Value) Value {
+			k := in.p.res(nfOf(a[0]))
+			if !k.isLit() {
+				in.unsupported("os.LookupEnv with a symbolic name")
+			}
+			if v, ok := in.p.env[k.litValue()]; ok {
+				return TupleV{StrV{v}, mkBool(true)}
+			}
 			return TupleV{mkStr(""), mkBool(false)}
 		},
 		"github.com/google/uuid.NewRandom": func(in *Interp, fn *ssa.Function, a []Value) Value {
